@@ -160,6 +160,14 @@ Definition count_true (l : list bool) : Z := zlen (filter (fun b => b) l).
 Definition rd_defined_crcs (defined : list bool) : reader (list Z) :=
   rd_many (count_true defined) (rd_fixed 4).
 
+(* expand the defined-only CRC values to one value per entry (0 where undefined) *)
+Fixpoint expand_crcs (defined : list bool) (crcs : list Z) : res (list Z) :=
+  match defined with
+  | [] => Ok []
+  | true :: ds => match crcs with c :: cs => do r <- expand_crcs ds cs; Ok (c :: r) | [] => Err EOther end
+  | false :: ds => do r <- expand_crcs ds crcs; Ok (0 :: r)
+  end.
+
 Definition parse_packinfo (lim : Z) : reader packinfo := fun bs =>
   do (pos, bs) <- rd_number bs;
   do (n, bs) <- rd_number bs;
@@ -173,7 +181,9 @@ Definition parse_packinfo (lim : Z) : reader packinfo := fun bs =>
           match pid with
           | Some 10 =>
               do (defined, bs) <- rd_boolean lim n true bs;
-              do (crcs, bs) <- rd_defined_crcs defined bs;
+              do (vals, bs) <- rd_defined_crcs defined bs;
+              (* self.crcs.append(value if crcexist else 0): the list stays aligned with the streams *)
+              do crcs <- expand_crcs defined vals;
               do (pid, bs) <- rd_pid bs;
               Ok (sizes, defined, crcs, pid, bs)
           | _ => Ok (sizes, [], [], pid, bs)
@@ -320,14 +330,6 @@ Fixpoint sub_digest_counts (nums : list Z) (fs : list folder) : res (Z * Z) :=
           do (a, b) <- sub_digest_counts nr fr;
           Ok ((if negb (n =? 1) || negb (f_digestdefined f) then n else 0) + a, n + b)
       end
-  end.
-
-(* expand the defined-only CRC values to one value per entry (0 where undefined) *)
-Fixpoint expand_crcs (defined : list bool) (crcs : list Z) : res (list Z) :=
-  match defined with
-  | [] => Ok []
-  | true :: ds => match crcs with c :: cs => do r <- expand_crcs ds cs; Ok (c :: r) | [] => Err EOther end
-  | false :: ds => do r <- expand_crcs ds crcs; Ok (0 :: r)
   end.
 
 Fixpoint sub_assign_digests (lim : Z) (nums : list Z) (fs : list folder) (defined : list bool) (crcs : list Z)
